@@ -126,9 +126,9 @@ type onwardRec struct {
 func muTag(who string, k int) string { return fmt.Sprintf("%s#%d", who, k) }
 
 func (l *clog) count() int {
-	l.mu_.Lock()
-	defer l.mu_.Unlock()
-	return 0
+	l.mu.Lock()
+	defer l.mu.Unlock()
+	return len(l.es)
 }
 
 func (l *clog) nextRun() int {
@@ -136,4 +136,634 @@ func (l *clog) nextRun() int {
 	defer l.mu.Unlock()
 	l.hruns++
 	return l.hruns
+}
+
+func (l *clog) resetRuns() {
+	l.mu.Lock()
+	l.hruns = 0
+	l.mu.Unlock()
+}
+
+// muUnary: the onward-calling part of a unary interceptor (mkUnary) in a multiplicity case
+func (l *clog) muUnary(e *entry, who string, b int, ctx context.Context, req interface{}, info *grpc.UnaryServerInfo, handler grpc.UnaryHandler) (interface{}, error) {
+	n := l.mul.mult(who)
+	for k := 0; k < n; k++ {
+		o := &onwardRec{reqOut: req, ctxOut: ctx}
+		if l.mul.Fresh {
+			tag := muTag(who, k)
+			if sv, ok := req.(*wrapperspb.StringValue); ok {
+				o.reqOut = wrapperspb.String(sv.Value + "+" + tag) // the received request itself stays untouched
+			}
+			o.ctxOut = context.WithValue(ctx, ctxKey{who}, "ctx:"+tag)
+		}
+		e.ons = append(e.ons, o)
+		l.onward(who)
+		o.first = l.count()
+		o.gotResp, o.gotErr = handler(o.ctxOut, o.reqOut)
+		o.end = l.count()
+		o.returned = true
+	}
+	last := e.ons[n-1]
+	e.reqOut, e.gotResp, e.gotErr = last.reqOut, last.gotResp, last.gotErr
+	e.after, e.fullMethodAfter = true, info.FullMethod
+	switch b {
+	case bPass:
+		e.retResp, e.retErr = e.gotResp, e.gotErr
+	case bRewrite:
+		e.retResp = wrapperspb.String("rw:" + who)
+	default:
+		panic("multiplicity cases: behaviour " + behNames[b])
+	}
+	l.returning(who)
+	return e.retResp, e.retErr
+}
+
+// muStream: the same for a stream interceptor (mkStream)
+func (l *clog) muStream(e *entry, who string, b int, srv interface{}, ss grpc.ServerStream, info *grpc.StreamServerInfo, handler grpc.StreamHandler) error {
+	n := l.mul.mult(who)
+	for k := 0; k < n; k++ {
+		o := &onwardRec{streamOut: ss}
+		if l.mul.Fresh {
+			tag := muTag(who, k)
+			o.streamOut = &wrapStream{ServerStream: ss, who: tag, ctx: context.WithValue(e.ctx, ctxKey{who}, "ctx:"+tag)}
+		}
+		e.ons = append(e.ons, o)
+		l.onward(who)
+		o.first = l.count()
+		o.gotErr = handler(srv, o.streamOut)
+		o.end = l.count()
+		o.returned = true
+	}
+	last := e.ons[n-1]
+	e.streamOut, e.gotErr = last.streamOut, last.gotErr
+	e.after, e.fullMethodAfter, e.csAfter, e.ssAfter = true, info.FullMethod, info.IsClientStream, info.IsServerStream
+	switch b {
+	case bPass:
+		e.retErr = e.gotErr
+	case bRewrite:
+		e.retErr = status.Error(codes.Aborted, "rw:"+who)
+	default:
+		panic("multiplicity cases: behaviour " + behNames[b])
+	}
+	l.returning(who)
+	return e.retErr
+}
+
+// ---------------------------------------------------------------- reference model
+
+// muNode is one expected event: an invocation of an interceptor or a run of the handler
+type muNode struct {
+	who  string
+	pos  int       // position in the chain; len(chain) = the handler
+	kids []*muNode // interceptor: what each of its onward calls leads to
+	run  int       // handler: the how-many-th run in this RPC
+	// what this participant returns
+	resp string
+	code codes.Code
+	msg  string
+}
+
+type muPathEl struct {
+	who string
+	k   int
+}
+
+type muExpectation struct {
+	root  *muNode
+	log   []string
+	sent  []string // stream: the messages that arrive at the transport's stream, in order
+	hruns int
+}
+
+// muExpect: every onward call of layer i leads to one invocation of layer i+1 (the handler after the last layer)
+func muExpect(c caseT, ch []chainEl, method string) muExpectation {
+	var x muExpectation
+	tagged := func(m string, path []muPathEl) string { // a message sent beneath these onward calls, as seen above all of them
+		if c.Kind != "stream" || !c.Mu.Fresh {
+			return m
+		}
+		for i := len(path) - 1; i >= 0; i-- {
+			m += "+" + muTag(path[i].who, path[i].k)
+		}
+		return m
+	}
+	var ev func(i int, path []muPathEl) *muNode
+	ev = func(i int, path []muPathEl) *muNode {
+		if i == len(ch) {
+			x.hruns++
+			n := &muNode{who: "H", pos: i, run: x.hruns}
+			x.log = append(x.log, "H")
+			if c.Mu.handlerFails(c.HErr, n.run) {
+				n.code, n.msg = codes.NotFound, "handler error"
+			} else {
+				n.resp = "resp:" + method
+				x.sent = append(x.sent, tagged("resp:"+method, path))
+			}
+			return n
+		}
+		who := ch[i].who
+		n := &muNode{who: who, pos: i}
+		x.log = append(x.log, who)
+		switch ch[i].beh {
+		case bShort:
+			n.resp = "short:" + who
+			x.sent = append(x.sent, tagged("short:"+who, path))
+			return n
+		case bFail:
+			n.code, n.msg = codes.PermissionDenied, "fail:"+who
+			return n
+		}
+		for k := 0; k < c.Mu.mult(who); k++ {
+			n.kids = append(n.kids, ev(i+1, append(append([]muPathEl(nil), path...), muPathEl{who, k})))
+		}
+		last := n.kids[len(n.kids)-1]
+		switch ch[i].beh {
+		case bPass:
+			n.resp, n.code, n.msg = last.resp, last.code, last.msg
+		case bRewrite:
+			if c.Kind == "unary" {
+				n.resp = "rw:" + who
+			} else {
+				n.code, n.msg = codes.Aborted, "rw:"+who
+			}
+		default:
+			panic("multiplicity cases: behaviour " + behNames[ch[i].beh])
+		}
+		return n
+	}
+	x.root = ev(0, nil)
+	return x
+}
+
+// muReached: does the model reach an interceptor that calls onward more than once (the mechanism)? is the handler reached?
+func muReached(c caseT) (multi, handler bool) {
+	for _, el := range c.chain() {
+		if !onwardBeh(el.beh) {
+			return multi, false
+		}
+		if c.Mu.mult(el.who) >= 2 {
+			multi = true
+		}
+	}
+	return multi, true
+}
+
+func muClassifyLog(got, want []string, ch []chainEl) (clause, detail string) {
+	if reflect.DeepEqual(got, want) || (len(got) == 0 && len(want) == 0) {
+		return "", ""
+	}
+	cnt := func(xs []string, w string) int {
+		n := 0
+		for _, x := range xs {
+			if x == w {
+				n++
+			}
+		}
+		return n
+	}
+	for _, g := range got {
+		if strings.HasPrefix(g, "x") {
+			return "other-kind-interceptor-invoked", g
+		}
+	}
+	names := []string{}
+	for _, el := range ch {
+		names = append(names, el.who)
+	}
+	names = append(names, "H")
+	for _, w := range names {
+		g, x := cnt(got, w), cnt(want, w)
+		part := "interceptor"
+		if w == "H" {
+			part = "handler"
+		}
+		if g < x {
+			return fmt.Sprintf("%s-invoked-less-often-than-onward-calls-were-made-to-it", part), fmt.Sprintf("%s:%d<%d", w, g, x)
+		}
+		if g > x {
+			return fmt.Sprintf("%s-invoked-more-often-than-onward-calls-were-made-to-it", part), fmt.Sprintf("%s:%d>%d", w, g, x)
+		}
+	}
+	if len(got) == len(want) {
+		return "order", ""
+	}
+	return "log-mismatch", ""
+}
+
+// ---------------------------------------------------------------- judging one RPC
+
+var muCallCount, muMultiObserved int64 // measured
+
+func muJudge(k callSpec, es []*entry, res callResult, add func(clause, sub, what string)) {
+	c, sub, full, method := k.c, k.sub, k.full, k.method
+	want := muExpect(c, k.chain, method)
+	got := whos(es)
+	if res.panicked != nil {
+		add("panic", sub, fmt.Sprintf("call %s panicked: %v", full, res.panicked))
+		return
+	}
+	if cl, detail := muClassifyLog(got, want.log, k.chain); cl != "" {
+		s := sub
+		if detail != "" {
+			s = detail + "," + sub
+		}
+		add(cl, s, fmt.Sprintf("call %s: event log %v, expected %v (every onward call of an interceptor must go through all the layers below it, then the handler)", full, got, want.log))
+		return
+	}
+	// walk the expected tree along the log; the events of an onward call are those logged while it was running
+	var walk func(n *muNode, idx int, parent *entry, o *onwardRec, wantReq string, path []muPathEl) int
+	walk = func(n *muNode, idx int, parent *entry, o *onwardRec, wantReq string, path []muPathEl) int {
+		e := es[idx]
+		from := "caller"
+		if parent != nil {
+			from = muTag(parent.who, path[len(path)-1].k)
+		}
+		hand := from + ">" + e.who
+		if e.who == "H" {
+			if e.method != method {
+				add("wrong-method-handler", sub, fmt.Sprintf("call %s ran the handler of %s", full, e.method))
+			}
+			if e.srv != k.srv {
+				add("handler-srv", sub, fmt.Sprintf("call %s: handler got srv %v, registered %v", full, e.srv, k.srv))
+			}
+			if e.run != n.run {
+				add("handler-run-count", sub, fmt.Sprintf("call %s: run %d of the handler where the model has run %d", full, e.run, n.run))
+			}
+			// (a stream's one request message is read by the first run of the handler; later runs find the end of the stream)
+			if e.reqValue != wantReq && (c.Kind == "unary" || n.run == 1) {
+				add("request-value", hand+","+sub, fmt.Sprintf("call %s: run %d of the handler read request %q, expected %q (sent %q)", full, e.run, e.reqValue, wantReq, k.sent))
+			}
+		} else {
+			if e.fullMethod != full {
+				add("full-method", e.who+","+sub, fmt.Sprintf("call %s: interceptor %s was told FullMethod %q", full, e.who, e.fullMethod))
+			}
+			if c.Kind == "stream" && (e.cs != k.cs || e.ss != k.ss) {
+				add("stream-flags", e.who+","+sub, fmt.Sprintf("call %s (client=%v server=%v): interceptor %s was told IsClientStream=%v IsServerStream=%v", full, k.cs, k.ss, e.who, e.cs, e.ss))
+			}
+			if e.after && e.fullMethodAfter != full {
+				add("full-method", e.who+"@return,"+sub, fmt.Sprintf("call %s: when its onward calls had come back, the info given to interceptor %s said FullMethod %q", full, e.who, e.fullMethodAfter))
+			}
+			if e.after && c.Kind == "stream" && (e.csAfter != k.cs || e.ssAfter != k.ss) {
+				add("stream-flags", e.who+"@return,"+sub, fmt.Sprintf("call %s (client=%v server=%v): when its onward calls had come back, the info given to interceptor %s said IsClientStream=%v IsServerStream=%v", full, k.cs, k.ss, e.who, e.csAfter, e.ssAfter))
+			}
+		}
+		if o != nil {
+			// what that onward call handed on is what this layer is given
+			if c.Kind == "unary" {
+				if e.req != o.reqOut {
+					add("request-identity", hand+","+sub, fmt.Sprintf("call %s: %s was given the request %s, but onward call %s handed %s on", full, e.who, describe(e.req), from, describe(o.reqOut)))
+				}
+			} else if e.stream != o.streamOut {
+				add("stream-identity", hand+","+sub, fmt.Sprintf("call %s: %s was given the stream %s, but onward call %s handed %s on", full, e.who, describe(e.stream), from, describe(o.streamOut)))
+			}
+		}
+		if c.Mu.Fresh {
+			for _, up := range path {
+				if w := "ctx:" + muTag(up.who, up.k); e.ctx == nil || e.ctx.Value(ctxKey{up.who}) != w {
+					var has interface{}
+					if e.ctx != nil {
+						has = e.ctx.Value(ctxKey{up.who})
+					}
+					add("context-passthrough", muTag(up.who, up.k)+">"+e.who+","+sub, fmt.Sprintf("call %s: the context given to %s has %v where onward call %s of %s put %q", full, e.who, has, muTag(up.who, up.k), up.who, w))
+				}
+			}
+		}
+		next := idx + 1
+		if len(n.kids) > 0 && len(e.ons) != len(n.kids) {
+			add("log-structure", e.who+","+sub, fmt.Sprintf("call %s: %s made %d onward calls, the model %d", full, e.who, len(e.ons), len(n.kids)))
+			return -1
+		}
+		for ki, kid := range n.kids {
+			oc := e.ons[ki]
+			if oc.first != next || oc.end <= oc.first {
+				add("log-structure", muTag(e.who, ki)+","+sub, fmt.Sprintf("call %s: onward call %s ran while events [%d,%d) of %v were logged, expected them to start at %d", full, muTag(e.who, ki), oc.first, oc.end, got, next))
+				return -1
+			}
+			wr := wantReq
+			if c.Mu.Fresh {
+				wr += "+" + muTag(e.who, ki)
+			}
+			child := es[oc.first]
+			next = walk(kid, oc.first, e, oc, wr, append(append([]muPathEl(nil), path...), muPathEl{e.who, ki}))
+			if next < 0 {
+				return -1
+			}
+			if next != oc.end {
+				add("log-structure", muTag(e.who, ki)+","+sub, fmt.Sprintf("call %s: onward call %s ran while events [%d,%d) of %v were logged, but what it leads to ends at %d", full, muTag(e.who, ki), oc.first, oc.end, got, next))
+				return -1
+			}
+			if oc.gotResp != child.retResp || !sameErr(oc.gotErr, child.retErr) {
+				add("result-passthrough", muTag(e.who, ki)+"<"+child.who+","+sub, fmt.Sprintf("call %s: onward call %s got (%v, %s) but %s returned (%v, %s)", full, muTag(e.who, ki), oc.gotResp, describeErr(oc.gotErr), child.who, child.retResp, describeErr(child.retErr)))
+			}
+		}
+		return next
+	}
+	if end := walk(want.root, 0, nil, nil, k.sent, nil); end >= 0 && end != len(es) {
+		add("log-structure", sub, fmt.Sprintf("call %s: events after the outermost participant's: %v", full, got))
+	}
+	for _, e := range es {
+		if len(e.ons) >= 2 {
+			atomic.AddInt64(&muMultiObserved, 1)
+			break
+		}
+	}
+	// what the caller sees
+	root := want.root
+	if k.carrier == "direct" {
+		top := es[0]
+		if c.Kind == "unary" && res.resp != top.retResp {
+			add("caller-result", sub, fmt.Sprintf("call %s: caller got response %v, %s returned %v", full, res.resp, top.who, top.retResp))
+		}
+		if !sameErr(res.err, top.retErr) {
+			add("caller-result", sub, fmt.Sprintf("call %s: caller got error %s, %s returned %s", full, describeErr(res.err), top.who, describeErr(top.retErr)))
+		}
+		if st, _ := status.FromError(res.err); st.Code() != root.code || (root.code != codes.OK && st.Message() != root.msg) || (c.Kind == "unary" && root.code == codes.OK && res.respVal != root.resp) {
+			add("caller-result", sub, fmt.Sprintf("call %s: caller got (%q, %v), expected (%q, code=%v msg=%q)", full, res.respVal, res.err, root.resp, root.code, root.msg))
+		}
+		if c.Kind == "stream" && !reflect.DeepEqual(res.msgs, want.sent) && !(len(res.msgs) == 0 && len(want.sent) == 0) {
+			add("caller-result", sub, fmt.Sprintf("call %s: messages sent %v, expected %v", full, res.msgs, want.sent))
+		}
+	} else if c.Kind == "unary" {
+		// (streams on a transport: what a client makes of a handler that ran more than once on one stream is the transport's business)
+		st, _ := status.FromError(res.err)
+		if st.Code() != root.code || (root.code != codes.OK && st.Message() != root.msg) {
+			add("client-status", sub, fmt.Sprintf("call %s: client got %v, expected code=%v msg=%q", full, res.err, root.code, root.msg))
+		} else if root.code == codes.OK && res.respVal != root.resp {
+			add("client-response", sub, fmt.Sprintf("call %s: client got response %q, expected %q", full, res.respVal, root.resp))
+		}
+	}
+}
+
+// runMu builds the configuration on the real library and calls every method of c.Kind.
+func runMu(c caseT, verbose bool) (probs []problem, observed string) {
+	atomic.AddInt64(&progress, 1)
+	current.Store(c.String())
+	add := func(clause, sub, what string) { probs = append(probs, problem{clause, sub, what}) }
+	defer func() {
+		if r := recover(); r != nil {
+			add("panic", "", fmt.Sprintf("library code panicked: %v", r))
+		}
+	}()
+	l := &clog{mul: c.Mu}
+	b := build(c, l, add)
+	if b == nil {
+		return
+	}
+	t := b.targets[0]
+	n := c.U
+	if c.Kind == "stream" {
+		n = len(c.Flags)
+	}
+	var obs []string
+	for i := 0; i < n; i++ {
+		sub := fmt.Sprintf("m=%d/%d", i, n)
+		var method string
+		var cs, ss bool
+		if c.Kind == "unary" {
+			method = unaryName(i)
+		} else {
+			method = streamName(i)
+			cs, ss = c.Flags[i]&1 != 0, c.Flags[i]&2 != 0
+			sub += fmt.Sprintf(",cs=%v,ss=%v", cs, ss)
+		}
+		full := "/" + svcName + "/" + method
+		chain := c.chainWith(t.who, t.beh)
+		// the server side of a transport runs in a goroutine of its own, and the client of a stream may give up
+		// early: wait until the outermost participant has returned
+		var done chan struct{}
+		l.beforeOnward, l.onReturn = nil, nil
+		if c.Carrier != "direct" && c.Kind == "stream" && len(chain) > 0 {
+			done = make(chan struct{})
+			var once sync.Once
+			top := chain[0].who
+			l.onReturn = func(who string) {
+				if who == top {
+					once.Do(func() { close(done) })
+				}
+			}
+		}
+		l.take()
+		l.resetRuns()
+		ctx, cancel := context.WithCancel(context.Background())
+		res := call(c, ctx, method, full, "req:"+method, 0, cs, ss, b.final, b.srv, t)
+		// (a client that was promised a single response stops reading after the second message; the server side of
+		// the in-process channel then blocks in SendMsg until the RPC's context is done: end the RPC for the client
+		// first, as a client that has its answer does, then wait for the server side)
+		cancel()
+		if done != nil && res.panicked == nil {
+			<-done
+		}
+		l.onReturn = nil
+		es := l.take()
+		atomic.AddInt64(&muCallCount, 1)
+		o := fmt.Sprintf("%s: log=%v result=(%q %v err=%v)", method, whos(es), res.respVal, res.msgs, res.err)
+		obs = append(obs, o)
+		if verbose {
+			fmt.Println("  " + o + fmt.Sprintf("   expected log=%v", muExpect(c, chain, method).log))
+		}
+		muJudge(callSpec{c: c, carrier: c.Carrier, method: method, full: full, cs: cs, ss: ss, css: ss, sub: sub,
+			sent: "req:" + method, chain: chain, srv: b.srv}, es, res, add)
+	}
+	l.resetRuns()
+	checkInputUntouched(b, l, add)
+	return probs, strings.Join(obs, "; ")
+}
+
+// ---------------------------------------------------------------- enumeration
+
+type muOpt struct{ b, n int }
+
+func muOptions(maxN int, withNil bool) []muOpt {
+	var out []muOpt
+	if withNil {
+		out = append(out, muOpt{bNil, 1})
+	}
+	for n := 1; n <= maxN; n++ {
+		out = append(out, muOpt{bPass, n}, muOpt{bRewrite, n})
+	}
+	return append(out, muOpt{bShort, 1}, muOpt{bFail, 1})
+}
+
+func muMaxN(tier string) int {
+	if tier == "thorough" {
+		return 3
+	}
+	return 2
+}
+
+// muChains: every (transport-level, outer, inner) combination in which an interceptor that calls onward more than once
+// is reached, crossed with what is handed on and with the handler's outcome (varied only where the handler is reached)
+func muChains(tier string, fn func(t, d1, d2 muOpt, fresh bool, herr bool, hseq int)) {
+	maxN := muMaxN(tier)
+	for _, t := range muOptions(maxN, true) {
+		for _, d1 := range muOptions(maxN, false) {
+			for _, d2 := range muOptions(maxN, true) {
+				probe := caseT{Kind: "unary", T: t.b, D1: d1.b, D2: d2.b, Mu: &muT{N: [3]int{t.n, d1.n, d2.n}}}
+				multi, handler := muReached(probe)
+				if !multi {
+					continue // the other parts of the grammar have this chain
+				}
+				for _, fresh := range []bool{false, true} {
+					fn(t, d1, d2, fresh, false, 0)
+					if handler {
+						fn(t, d1, d2, fresh, true, 0)
+						fn(t, d1, d2, fresh, false, 1)
+					}
+				}
+			}
+		}
+	}
+}
+
+func enumerateMu(tier string, fn func(caseT)) {
+	shs := []shape{{1, nil}, {0, []int{3}}, {2, []int{1, 2}}}
+	if tier == "thorough" {
+		shs = append(shs, shape{1, []int{0}}, shape{2, []int{3, 0}})
+	}
+	for _, sh := range shs {
+		for _, carrier := range []string{"direct", "inproc", "http"} {
+			for _, form := range []string{"IS", "WI"} {
+				for _, kind := range []string{"unary", "stream"} {
+					if (kind == "unary" && sh.U == 0) || (kind == "stream" && len(sh.Flags) == 0) {
+						continue
+					}
+					muChains(tier, func(t, d1, d2 muOpt, fresh bool, herr bool, hseq int) {
+						depth := 1
+						if d2.b != bNil {
+							depth = 2
+						}
+						fn(caseT{Carrier: carrier, Form: form, U: sh.U, Flags: sh.Flags, Depth: depth, Kind: kind,
+							T: t.b, D1: d1.b, D2: d2.b, HErr: herr, Mu: &muT{N: [3]int{t.n, d1.n, d2.n}, Fresh: fresh, HSeq: hseq}})
+					})
+				}
+			}
+		}
+	}
+}
+
+// ---------------------------------------------------------------- reference: grpc-go's chained server interceptors
+
+// muReference runs every chain of the grammar on a real grpc-go server (over bufconn) whose interceptors are
+// chained with grpc.ChainUnaryInterceptor / grpc.ChainStreamInterceptor, the plain description registered, and
+// compares the event log (and, for unary RPCs, what the client gets) with the oracle's model.
+func muReference(tier string) (ok bool, what string) {
+	type slotT struct {
+		u grpc.UnaryServerInterceptor
+		s grpc.StreamServerInterceptor
+	}
+	var cur [3]slotT // the interceptors of the configuration being run (nil = that layer is absent)
+	unarySlot := func(i int) grpc.UnaryServerInterceptor {
+		return func(ctx context.Context, req interface{}, info *grpc.UnaryServerInfo, handler grpc.UnaryHandler) (interface{}, error) {
+			if cur[i].u == nil {
+				return handler(ctx, req)
+			}
+			return cur[i].u(ctx, req, info, handler)
+		}
+	}
+	streamSlot := func(i int) grpc.StreamServerInterceptor {
+		return func(srv interface{}, ss grpc.ServerStream, info *grpc.StreamServerInfo, handler grpc.StreamHandler) error {
+			if cur[i].s == nil {
+				return handler(srv, ss)
+			}
+			return cur[i].s(srv, ss, info, handler)
+		}
+	}
+	l := &clog{}
+	shapeC := caseT{U: 1, Flags: []int{3}}
+	type refServer struct {
+		gs *grpc.Server
+		cc *grpc.ClientConn
+	}
+	servers := map[bool]*refServer{}
+	defer func() {
+		for _, r := range servers {
+			if r.cc != nil {
+				r.cc.Close()
+			}
+			r.gs.Stop()
+		}
+	}()
+	for _, herr := range []bool{false, true} {
+		dc := shapeC
+		dc.HErr = herr
+		lis := bufconn.Listen(1 << 20)
+		gs := grpc.NewServer(grpc.ChainUnaryInterceptor(unarySlot(0), unarySlot(1), unarySlot(2)),
+			grpc.ChainStreamInterceptor(streamSlot(0), streamSlot(1), streamSlot(2)))
+		gs.RegisterService(makeDesc(dc, l), &impl{1})
+		go gs.Serve(lis)
+		r := &refServer{gs: gs}
+		servers[herr] = r
+		cc, err := grpc.Dial("bufnet",
+			grpc.WithContextDialer(func(ctx context.Context, _ string) (net.Conn, error) { return lis.DialContext(ctx) }),
+			grpc.WithTransportCredentials(insecure.NewCredentials()))
+		if err != nil {
+			return false, "dialling the reference server: " + err.Error()
+		}
+		r.cc = cc
+	}
+	n, bad := 0, ""
+	muChains(tier, func(t, d1, d2 muOpt, fresh bool, herr bool, hseq int) {
+		if bad != "" {
+			return
+		}
+		for _, kind := range []string{"unary", "stream"} {
+			c := shapeC
+			c.Kind, c.T, c.D1, c.D2, c.HErr = kind, t.b, d1.b, d2.b, herr
+			c.Mu = &muT{N: [3]int{t.n, d1.n, d2.n}, Fresh: fresh, HSeq: hseq}
+			l.mul = c.Mu
+			l.resetRuns()
+			l.take()
+			for i, el := range []chainEl{{who: "T", beh: c.T}, {who: "D1", beh: c.D1}, {who: "D2", beh: c.D2}} {
+				cur[i] = slotT{}
+				if kind == "unary" {
+					cur[i].u = mkUnary(l, el.who, el.beh, 0)
+				} else {
+					cur[i].s = mkStream(l, el.who, el.beh, 0)
+				}
+			}
+			cc := servers[herr].cc
+			var code codes.Code
+			var msg, resp string
+			if kind == "unary" {
+				var out wrapperspb.StringValue
+				err := cc.Invoke(context.Background(), "/"+svcName+"/U0", wrapperspb.String("req:U0"), &out)
+				st, _ := status.FromError(err)
+				code, msg, resp = st.Code(), st.Message(), out.Value
+			} else {
+				st, err := cc.NewStream(context.Background(), &grpc.StreamDesc{StreamName: "S0", ClientStreams: true, ServerStreams: true}, "/"+svcName+"/S0")
+				if err == nil {
+					if err = st.SendMsg(wrapperspb.String("req:S0")); err == nil || err == io.EOF {
+						st.CloseSend()
+						for err = nil; err == nil; {
+							err = st.RecvMsg(new(wrapperspb.StringValue))
+						}
+					}
+				}
+				if err == io.EOF {
+					err = nil
+				}
+				s, _ := status.FromError(err)
+				code, msg = s.Code(), s.Message()
+			}
+			got := whos(l.take())
+			method := map[string]string{"unary": "U0", "stream": "S0"}[kind]
+			want := muExpect(c, c.chain(), method)
+			n++
+			if !reflect.DeepEqual(got, want.log) {
+				bad = fmt.Sprintf("%s %s %s: grpc-go's chained interceptors log %v, the model %v", kind, muChainStr(c), c.Mu.String(), got, want.log)
+				return
+			}
+			if code != want.root.code || (code != codes.OK && msg != want.root.msg) || (kind == "unary" && code == codes.OK && resp != want.root.resp) {
+				bad = fmt.Sprintf("%s %s %s: the client of grpc-go got (%q, code=%v msg=%q), the model (%q, code=%v msg=%q)", kind, muChainStr(c), c.Mu.String(), resp, code, msg, want.root.resp, want.root.code, want.root.msg)
+				return
+			}
+		}
+	})
+	for i := range cur {
+		cur[i] = slotT{}
+	}
+	if bad != "" {
+		return false, bad
+	}
+	return true, fmt.Sprintf("%d RPCs on a grpc-go server over bufconn with chained interceptors: event log and client-visible status (unary: and response) as the model says", n)
 }
